@@ -873,6 +873,10 @@ pub fn mon_c12(log: &[Rec], m: &mut Mon) {
             format!("{}: policy answered {:?}; timers armed {:?}; expected exactly {:?}", ctx, a, w.timers, want)
         });
     };
+    // "arms a timer": every timer the machine created for a wait is running when the machine suspends, also for a
+    // timer implementation that only starts on its first poll
+    let lazy = log.iter().find(|r| matches!(r.ev, Ev::TimerNotStarted { .. }));
+    m.judge("c12-armed-timers-are-started", lazy.is_none(), "", || format!("a timer was created but not polled before the machine suspended: {:?}", lazy.map(|r| (r.seq, &r.ev))));
     for r in log {
         match &r.ev {
             Ev::Restart | Ev::Built => {
